@@ -605,7 +605,7 @@ class _RuleDenoter:
             self.var_types[keep] = self.var_types[drop]
 
     def emit(self, ctx, extra_prem, concl):
-        prem = [dict(a) for a in ctx["prem"]] + extra_prem
+        prem = [dict(a) for a in ctx["prem"]] + [dict(a) for a in extra_prem]
         # variables bound by no atom range over their whole type
         bound = {v for a in prem for v in a["args"]}
         cv = set(concl["args"]) if "args" in concl else {concl["lhs"], concl["rhs"]}
